@@ -15,22 +15,24 @@ SPEC = dict(
          "sizes 1..64 with add/flush programs; seeded yields/sleeps inside callbacks only; for ParallelExecutor cases with "
          "<= 400 tasks the callback-level trace (initialize / execute begin+end / finish begin+end / caller's call+return, "
          "atomic sequence order) is replayed by the Lean driver on the transition system without spurious wake-ups "
-         "(records 'petrace'); mode 'onecpu' simulates a one-processor machine (sysconf interposed by the harness); a "
+         "(records 'petrace'); for own-constructor Parallel2DExecutor cases the partition reported by the trace hook is compared "
+         "with the model (records 'p2dplan'); mode 'onecpu' simulates a one-processor machine (sysconf interposed by the harness); a "
          "watchdog turns a hang (30 s) into P no_deadlock; distinct = distinct input records",
     partial="PROVED about the executed models for every thread count / task count / level / grid size and every schedule "
             "(spurious wake-ups anywhere): index partition, quadtree coverage and conflict freedom, exactly-once, "
             "init/finish order, finish mutual exclusion, return-after-all, no_deadlock (enabledness, no fairness statement) "
             "for ParallelExecutor AND ParallelWorkQueue. TIE of the protocol models to the C++: by reading, by the exact "
             "O-lines, and (ParallelExecutor only) by trace inclusion at CALLBACK granularity: every logged run must be a run of "
-            "the transition system; lock / wait / notify events inside the library are NOT observed (the add-only hook "
-            "notes/C33_trace_hook.patch is not applied; if it is, the harness additionally compares binStart and the squares "
-            "of every pass with the model's plan, records 'p2dplan'). No trace validation for ParallelWorkQueue and for the "
+            "the transition system. Through the SIMBODY_VERIF hook (/repo 027115e8) the REAL Parallel2DExecutor partition "
+            "(binStart[0..bins] and the squares of every pass, own constructor) is compared exactly with the model's plan the "
+            "theorems are about (records 'p2dplan'); the hook's lock / wait / notify events are NOT consumed. No trace validation for ParallelWorkQueue and for the "
             "passes inside Parallel2DExecutor. Perturbation happens only inside user callbacks, not in the library's own "
             "windows (between unlock and isFinished(), between running=false and incrementWaitingThreads, between pop and "
             "notify). NOT BUILT: ThreadSanitizer tier / race detector, forced schedules. Real schedulers and the C++ memory "
             "model are runtime; the unlocked reads of finished / taskQueue.empty() in worker loop conditions (F9) are "
             "modelled as sequentially consistent atomic reads; Parallel2DExecutor conflict freedom of the REAL partition is "
-            "observed only through the in-flight counters (sleeping callbacks for grids <= 12) unless the hook is applied",
+            "proved for the model's partition, which the p2dplan records show to be the library's; at run time overlap is "
+            "observed only through in-flight counters (sleeping callbacks for grids <= 12)",
     assumptions=["std::mutex / std::condition_variable have monitor semantics with spurious wake-ups (trusted base item 7)",
                  "one producer thread uses a ParallelWorkQueue (the documented usage)", "ParallelWorkQueue queueSize >= 1, >= 1 worker"],
 )
